@@ -134,6 +134,11 @@ func runCutCase(c cutCase, st *cutStats) *fail {
 		}
 		gate.Release()
 	}
+	if gate != nil {
+		// (a call that reaches the gate only now - the machine is busy - must not be
+		// kept there: Handle is owed a return only once its handlers can finish)
+		gate.Release()
+	}
 	select {
 	case <-s.Done():
 	case <-time.After(20 * time.Second):
